@@ -298,6 +298,12 @@ PREFIX (_equal) (region_type_t *reg1, region_type_t *reg2)
     box_type_t *rects1;
     box_type_t *rects2;
 
+    /* The extents of an empty region carry no information (translating
+     * an empty region moves them), so all empty regions are equal.
+     */
+    if (PIXREGION_NIL (reg1) && PIXREGION_NIL (reg2))
+	return TRUE;
+
     if (reg1->extents.x1 != reg2->extents.x1)
 	return FALSE;
     
